@@ -407,6 +407,21 @@ func c19Actions() []c19Action {
 		}
 		return false, "", "", ""
 	}})
+	// a profile update without a password member whose body carries a hashed_password (a bcrypt hash of "p3"): for an existing user the
+	// stored credential stays what it was; only for a user that does not exist yet is the supplied hash what gets stored
+	acts = append(acts, c19Action{name: "PUT user alice without password, body carries hashed_password", req: func(*c19Model) c19Req {
+		return c19Req{method: "PUT", path: "/users/alice", body: `{"name":"alice","email":"alice@changed.example.com","hashed_password":"JDJhJDA0JENtZnZJa1gwajl3azVnR2Q0UVRmQXUuQVZnYkRtYS5XcHY4UmdCd1hJb1BwUTFSQzk0LzRD"}`}
+	}, apply: func(m *c19Model, rep *c19Reply) (bool, string, string, string) {
+		if rep.code < 300 {
+			u, existed := m.users["alice"]
+			if !existed {
+				u.pw = "p3"
+			}
+			u.email = "alice@changed.example.com"
+			m.users["alice"] = u
+		}
+		return false, "", "", ""
+	}})
 	// a profile update whose body names another user: the path decides whose record it is
 	acts = append(acts, c19Action{name: "PUT user bob with body name=alice, no password", req: func(*c19Model) c19Req {
 		b, _ := json.Marshal(map[string]interface{}{"name": "alice", "email": "bob@renamed.example.com"})
@@ -593,7 +608,7 @@ func c19Actions() []c19Action {
 		p73, p73alt := p72+"Z", p72+"Q"
 		acts = append(acts, putUser("alice", p73, "alice@example.com", true), putUser("alice", p72, "alice@example.com", true))
 		// strings that differ from a password by blanks around it are other strings
-		for _, pw := range []string{"p1 ", " p1", "p1\n", "\tp1\r\n", "p2 ", "P1"} {
+		for _, pw := range []string{"p1 ", " p1", "p1\n", "\tp1\r\n", "p2 ", "P1", "p3"} {
 			pw := pw
 			acts = append(acts, c19Action{name: fmt.Sprintf("login alice/%+q", pw), req: func(m *c19Model) c19Req {
 				return c19Req{method: "POST", path: "/login", body: url.Values{"user": {"alice"}, "password": {pw}}.Encode(), ctype: "application/x-www-form-urlencoded", cookie: m.cookie}
